@@ -239,7 +239,121 @@ def check_two_orderings(inp):
     return None
 
 
-CHECKS = {'ops': check_ops, 'errors': check_errors, 'two_orderings': check_two_orderings}
+def check_structured(inp):
+    """SIZE and STRUCTURE: 8-12 variables, functions with a regular structure (parity, comparator,
+    threshold, alternating chains) built with the operators from single-variable diagrams, under a
+    natural, a reversed and an interleaved/grouped ordering; every intermediate result, chained
+    restrictions and negations are inspected against harness truth tables."""
+    OBDD, BDDNode = _lib()
+    n, family = inp['n'], inp['family']
+    vs = tuple('v%02d' % i for i in range(n))
+    kind = inp.get('order', 'natural')
+    if kind == 'natural':
+        order = list(vs)
+    elif kind == 'reversed':
+        order = list(reversed(vs))
+    else:                                   # even-indexed variables first, then the odd-indexed ones
+        order = list(vs[::2]) + list(vs[1::2])
+    full = bdd.tt_full(n)
+    T = [bdd.tt_var(i, n) for i in range(n)]
+
+    def chk(o, tt, what):
+        p = inspect(o, tt, vs, order, '%s (%d variables, %s ordering): %s' % (family, n, kind, what))
+        return Failure('structured', inp, 'correct reduced ordered diagram', p) if p else None
+
+    try:
+        X = [OBDD(v, list(order)) for v in vs]
+        steps = []
+        if family == 'parity':
+            acc, tt = X[0], T[0]
+            for i in range(1, n):
+                acc, tt = acc ^ X[i], tt ^ T[i]
+                steps.append((acc, tt, 'xor of the first %d variables' % (i + 1)))
+        elif family == 'comparator':
+            acc, tt = None, None
+            for i in range(0, n - 1, 2):
+                eq, et = ~(X[i] ^ X[i + 1]), full & ~(T[i] ^ T[i + 1])
+                acc, tt = (eq, et) if acc is None else (acc & eq, tt & et)
+                steps.append((acc, tt, 'pairs equal up to variable %d' % (i + 1)))
+        elif family == 'threshold':
+            # at least two of the variables are true
+            acc, tt = X[0] & X[1], T[0] & T[1]
+            any_, at = X[0] | X[1], T[0] | T[1]
+            for i in range(2, n):
+                acc, tt = acc | (any_ & X[i]), tt | (at & T[i])
+                any_, at = any_ | X[i], at | T[i]
+                steps.append((acc, tt, 'at least two of the first %d' % (i + 1)))
+        elif family == 'alternating':
+            acc, tt = X[n - 1], T[n - 1]
+            for i in range(n - 2, -1, -1):
+                if i % 2:
+                    acc, tt = X[i] | acc, T[i] | tt
+                else:
+                    acc, tt = X[i] & acc, T[i] & tt
+                steps.append((acc, tt, 'chain from variable %d' % i))
+        elif family == 'skip':
+            # a function in which the middle variables matter on one branch only
+            lo = X[1] & X[n - 1]
+            lt = T[1] & T[n - 1]
+            hi, ht = X[1], T[1]
+            for i in range(2, n - 1):
+                hi, ht = hi ^ X[i], ht ^ T[i]
+            acc, tt = (X[0] & hi) | (~X[0] & lo), (T[0] & ht) | (full & ~T[0] & lt)
+            steps.append((acc, tt, 'if v00 then parity of the middle else v01 and the last'))
+        else:
+            raise core.HarnessError('unknown family %r' % (family,))
+        for (o, tt, what) in steps[-4:] + steps[:2]:
+            f = chk(o, tt, what)
+            if f:
+                return f
+        o, tt, what = steps[-1]
+        f = chk(~o, full & ~tt, 'negation of the last result')
+        if f:
+            return f
+        # chained restrictions, from the top, the bottom and the middle of the ordering
+        r, rt = o, tt
+        for j, v in enumerate([order[0], order[-1], order[n // 2], order[1], order[n // 2 + 1]]):
+            b = (1, 0, True, False, 1)[j]
+            r, rt = r.restrict(v, b), bdd.cofactor(rt, vs.index(v), bool(b), n)
+            f = chk(r, rt, 'after restricting %s' % ', '.join('%s=%r' % (order_v, (1, 0, True, False, 1)[k])
+                                                                for k, order_v in enumerate([order[0], order[-1], order[n // 2], order[1], order[n // 2 + 1]][:j + 1])))
+            if f:
+                return f
+        f = chk(o, tt, 'the last result after everything else was computed')
+        if f:
+            return f
+    except core.HarnessError:
+        raise
+    except Exception as e:
+        return Failure('structured', inp, 'no exception', 'raised %s: %s' % (type(e).__name__, str(e)[:200]))
+    return None
+
+
+STRUCT_FAMILIES = ['parity', 'comparator', 'threshold', 'alternating', 'skip']
+
+
+def structured_shard(st, shard, nshards, payload):
+    i = -1
+    for n in payload['ns']:
+        for family in STRUCT_FAMILIES:
+            for kind in ('natural', 'reversed', 'split'):
+                i += 1
+                if i % nshards != shard:
+                    continue
+                inp = {'n': n, 'family': family, 'order': kind}
+                st.evaluations += 1
+                st.nontrivial += 1
+                st.bump('structured functions over %d variables' % n)
+                if kind == 'split':
+                    st.sample(inp, cls='structured-' + family)
+                f = check_structured(inp)
+                if f is not None:
+                    if st.failure is None:
+                        st.failure = f
+                    return
+
+
+CHECKS = {'ops': check_ops, 'errors': check_errors, 'two_orderings': check_two_orderings, 'structured': check_structured}
 
 
 def replay(ctx, rec):
@@ -349,6 +463,14 @@ def run(ctx):
         if f is not None:
             ctx.violation(f)
             return
+
+    sp = {'ns': ctx.pick([8, 11], [7, 8, 10, 12, 13])}
+    ctx.scopes.append('structured functions (parity, comparator, threshold, alternating chain, skipped middle) over %s variables under a natural, '
+                      'a reversed and a split ordering, with chained restrictions' % sp['ns'])
+    f = core.run_sharded(ctx, structured_shard, sp)
+    if f is not None:
+        ctx.violation(f)
+        return
 
     f = core.run_random(ctx, random_shard, 2400, 24000)
     if f is not None:
